@@ -15,7 +15,7 @@ tname=$(grep -o 'func TestSeeded[A-Za-z0-9_]*' "$d/demo_test.go" | head -1 | sed
 git apply "$d/patch.diff" || { echo "REJECTED patch does not apply"; exit 1; }
 go build ./... >/dev/null 2>&1 || { echo "REJECTED does not build"; exit 1; }
 pk="$@"; [ -z "$pk" ] && pk="./$dir/..."
-if ! go test -vet=off -count=1 $pk > "$wt/.t.log" 2>&1; then echo "REJECTED existing tests fail with the change: $(grep -E '^(--- FAIL|FAIL)' $wt/.t.log | head -3 | tr '\n' ' ')"; exit 1; fi
+if ! go test -vet=off -count=1 ${CONFIRM_SKIP:+-skip $CONFIRM_SKIP} $pk > "$wt/.t.log" 2>&1; then echo "REJECTED existing tests fail with the change: $(grep -E '^(--- FAIL|FAIL)' $wt/.t.log | head -3 | tr '\n' ' ')"; exit 1; fi
 cp "$d/demo_test.go" "$dir/zz_seeded_demo_test.go"
 if go test -vet=off -count=1 -run "^${tname}\$" "./$dir" > "$wt/.d1.log" 2>&1; then echo "REJECTED demo passes with the change"; exit 1; fi
 grep -q -E "^(--- FAIL|panic:|FAIL)" "$wt/.d1.log" || { echo "REJECTED demo did not run: $(tail -3 $wt/.d1.log)"; exit 1; }
